@@ -5,7 +5,7 @@
     closure site; promise identity (cutParent) is an id drawn from a counter.
     Everything is executable; the only partiality is fuel. *)
 From Coq Require Import ZArith Bool List String.
-From PV Require Import Model.Term Model.Unify Model.Clause Model.Order.
+From PV Require Import Model.Term Model.Unify Model.Clause Model.Order Model.Groups.
 From PV Require Import Model.GoInt Model.F64 Model.Num Gen.Arith_gen Model.Eval.
 Import ListNotations.
 Open Scope string_scope.
@@ -187,7 +187,8 @@ Definition free_vars_set (e : env) (goal tmpl : term) : list Z :=
   let bound := exist_vars UFUEL e goal (fvs_f UFUEL e tmpl []) in
   filter (fun v => negb (existsb (Z.eqb v) bound)) (free_vars e goal).
 
-(** variant as implemented (engine/builtin.go variant): one-directional mapping *)
+(** variant as implemented (engine/builtin.go variant): a one-to-one mapping of
+    the variables of the first term to those of the second *)
 Fixpoint variant_f (fuel : nat) (e : env) (m : list (Z * Z)) (work : list (term * term)) : bool :=
   match fuel with
   | O => false
@@ -199,7 +200,8 @@ Fixpoint variant_f (fuel : nat) (e : env) (m : list (Z * Z)) (work : list (term 
           | Var x, Var y =>
               match find (fun p => Z.eqb (fst p) x) m with
               | Some p => if Z.eqb (snd p) y then variant_f f e m rest else false
-              | None => variant_f f e ((x, y) :: m) rest
+              | None => if existsb (fun p => Z.eqb (snd p) y) m then false   (* y is already the image of another variable *)
+                        else variant_f f e ((x, y) :: m) rest
               end
           | Var _, _ => false
           | Cmp fa xs, Cmp fb ys =>
@@ -493,25 +495,9 @@ with apply_cont (fuel : nat) (k : cont) (e : env) (st : state) {struct fuel} : p
           (* group the W+T pairs by variance of W *)
           match list_elems UFUEL e (Var s) with
           | Some (pairs, _) =>
-              let fix groups (fuel2 : nat) (l : list term) : list thunk :=
-                match fuel2 with
-                | O => []
-                | S f2 =>
-                    match l with
-                    | [] => []
-                    | p0 :: l' =>
-                        match resolve e p0 with
-                        | Cmp "+" [w; t] =>
-                            let same := filter (fun x => match resolve e x with Cmp "+" [ww; _] => variant e ww w | _ => false end) l' in
-                            let others := filter (fun x => match resolve e x with Cmp "+" [ww; _] => negb (variant e ww w) | _ => true end) l' in
-                            let ws := w :: map (fun x => match resolve e x with Cmp "+" [ww; _] => ww | r => r end) same in
-                            let ts := t :: map (fun x => match resolve e x with Cmp "+" [_; t2] => t2 | r => r end) same in
-                            ThGroup witness ws ts setof inst k' e :: groups f2 others
-                        | _ => []
-                        end
-                    end
-                end in
-              delay (groups (S (List.length pairs)) pairs) st
+              let wt := map (fun x => match resolve e x with Cmp "+" [w; t] => (w, t) | r => (r, r) end) pairs in
+              let groups := group_with (fun ww w => variant e ww w) (S (List.length wt)) wt in
+              delay (map (fun g => ThGroup witness (fst g) (snd g) setof inst k' e) groups) st
           | None => (PErr (EPanic "bag"), st)
           end
       | KRetractDel idx rid uid k' =>
